@@ -126,6 +126,27 @@ CHECKS["C13"] = dict(
 NOT_YET = {}
 
 
+# additions of rounds four and five (DESIGN §6 names the seeded changes that led to each)
+EXTRA = {
+    "C01": "Histories of two transfers on one blocking structure (the first spends its retries), transfers that neither succeed nor fail as a verdict, and blocks containing the protocol's own tag text are included.",
+    "C03": "Full refreshes through the real refresh path of both structure classes (segment boundary cutting a watched 2-byte item) are judged like any other update.",
+    "C05": "Histories include a reported change between the segments of an outstanding refresh (outside and inside the refreshed range; events in arrival order with install sequence numbers and fetch events), bursts faster than the consumers drain, and changes placed just before the ping loop's next request.",
+    "C06": "Scenarios include the loss of the transport under calls in progress (TDown), calls right after the not-responding declaration, calls arriving while the refresh loop's request is in flight; a background caller that ends with an exception is a violation.",
+    "C07": "Floods of 70/100 datagrams with known traffic behind them, and an accounting of datagrams handed to the endpoint against datagrams that entered the queue.",
+    "C08": "Resets are also placed shortly after every event delivery of an undisturbed pilot run; a network mode in which only pings are lost.",
+    "C09": "Resets shortly after every event delivery of a pilot run; connections that never had a ping answered before the spa becomes unreachable. The known finding D9 is identified by an unreachable spa during the discovery that ended in NOT_FOUND.",
+    "C10": "Steady-state records after every reset scenario (a manager without a connection has no connection task or endpoint alive; otherwise no task name twice), resets in the zero-length pause after the endpoint was opened, the library's own recovery reset with a yielding client handler, truncated handshake answers.",
+    "C14": "The heater's three readings (current, target, real target) for raw words including 0, with the other items holding different words.",
+    "C15": "Empty address / identifier strings count as 'no filter'.",
+    "C16": "The blocking wire session receives reported changes throughout; preemption enumeration and stress histories also run on GeckoSpa, the class the blocking client instantiates.",
+    "C17": "Lights are switched in the on/off sweep and must not select the active table.",
+    "C19": "Snapshot names with bracketed tokens; traffic logs of blocks containing the protocol's tag text (exposed D22, fixed).",
+    "C20": "The connection sequence as a whole is specified in SyncConnect.tla (request chain with budgets, final connect, ping thread and the connection timeout) and real connections under loss inside and beyond the budgets are validated against SyncConnect_Trace.",
+}
+for _k, _v in EXTRA.items():
+    CHECKS[_k]["text"] = CHECKS[_k]["text"] + " " + _v
+
+
 def main():
     props = [json.loads(l) for l in open(os.path.join(HERE, "properties.jsonl"))]
     checks = []
